@@ -54,7 +54,7 @@ func kindIndex() *pbsubstreams.Module_KindBlockIndex_ {
 // emptyWasm is a valid WebAssembly module without any function (header + one custom section named tag), so that
 // the real services get past the compilation of the request's binaries; no block is ever delivered, so nothing runs.
 func emptyWasm(tag byte) []byte {
-	return []byte{0, 'a', 's', 'm', 1, 0, 0, 0, 0, 2, 1, tag}
+	return []byte{0, 'a', 's', 'm', 1, 0, 0, 0, 0, 3, 1, tag, 0}
 }
 
 // validModules builds a small well-formed module graph: modules in topological
@@ -215,6 +215,9 @@ func validTier2(r *rand.Rand) *pbssinternal.ProcessRangeRequest {
 	}
 	if r.Intn(3) == 0 {
 		req.Stage = uint32(r.Intn(3)) // may or may not exist in the graph: the service must cope either way
+		if req.Stage > 0 && r.Intn(10) != 0 {
+			req.SegmentNumber = 0 // later segments of a higher stage need the stores of the lower stages on disk (retry back-off when absent)
+		}
 	}
 	if r.Intn(6) == 0 {
 		req.WasmExtensionConfigs = map[string]string{"ext": "cfg"}
@@ -595,6 +598,9 @@ func mutateTier2(r *rand.Rand, req *pbssinternal.ProcessRangeRequest) string {
 		return "output-unknown"
 	case 2, 3:
 		req.Stage = []uint32{1, 2, 3, 5, 100, math.MaxUint32, 1 << 31}[r.Intn(7)]
+		if r.Intn(5) != 0 {
+			req.SegmentNumber = 0
+		}
 		return "stage-odd"
 	case 4:
 		req.SegmentSize = []uint64{0, 1, math.MaxUint64, 1 << 63, 3}[r.Intn(5)]
